@@ -62,6 +62,17 @@ def gen_case(rng):
             n = rng.choice(sorted(table))
             table[n] = table[n][:max(0, min(len(table[n]), r))]
     case = {"names": names, "seeds": seeds, "updater": updater, "table": table, "r": r}
+    if rng.random() < 0.15:
+        # the same stream object is registered under further ids (e.g. "default" and
+        # "arrivals" share one generator): whatever the updater does with it must
+        # not depend on the process (compared for equal listing order only)
+        alias = []
+        for k in range(rng.randint(1, 3)):
+            new = "alias%d" % k
+            alias.append([new, rng.choice(names)])
+            if updater == "table" and rng.random() < 0.5:
+                table[new] = [rng.randrange(10 ** 9) for _ in range(r + 2)]
+        case["alias"] = alias
     if rng.random() < 0.3:
         case["tt_seed"] = rng.getrandbits(48)      # also run the two-thread layer
     if updater == "table" and rng.random() < 0.3:
@@ -233,6 +244,8 @@ def in_process(case):
                         % (n, bad, before_seed, st.seed()))
     if case["updater"] == "table":
         for n in table:
+            if n not in case["seeds"]:
+                continue            # (ids of aliased streams)
             st = MersenneTwister(case["seeds"][n])
             before = st.seed()
             try:
@@ -262,9 +275,11 @@ def execute(case):
         cnt["fault:hashseed"] = cnt.get("fault:hashseed", 0) + 1
     for i, c in enumerate(cases):
         n_eval += 1
-        base = results[0][i][0]
         for k, res in enumerate(results):
             for o in (0, 1):
+                # (with aliased streams the listing order legitimately matters:
+                # compare equal orders only)
+                base = results[0][i][o if c.get("alias") else 0]
                 if res[i][o] != base and finding is None:
                     diff = [n for n in c["names"] if isinstance(base, dict) and
                             isinstance(res[i][o], dict) and base.get(n) != res[i][o].get(n)]
